@@ -601,6 +601,13 @@ func (c17) Run(u fw.Unit) fw.Result {
 			r := detExec(sql, opts, func(e *Env) {
 				for _, row := range rows {
 					e.Emit(copyVal(row).(map[string]any))
+					if run == 1 {
+						// statistics are not window state
+						e.S.GetStats()
+						if st := e.S.Stream(); st != nil {
+							st.ResetStats()
+						}
+					}
 					if run == 1 || run == 4 {
 						e.Sleep(1500 * vtime.Millisecond)
 					}
